@@ -197,6 +197,9 @@ func (cfg *Config) paramExp(pe *syntax.ParamExp) (string, error) {
 				rs = rs[slicePos(sliceOffset):]
 			}
 			if pe.Slice.Length != nil {
+				if sliceLen < 0 && len(rs)+sliceLen < 0 {
+					return "", fmt.Errorf("%d: substring expression < 0", sliceLen)
+				}
 				rs = rs[:slicePos(sliceLen)]
 			}
 			str = string(rs)
